@@ -146,3 +146,72 @@ func TestVerifDiskCheck(t *testing.T) {
 		}
 	}
 }
+
+// TestVerifPrune: deleteExcessRecordings on a small file system (VERIF_DIR is a directory on a file system of a few MB
+// that the harness mounted).  Per scenario: files are created, the numbers of the file system are read, the function
+// runs, the directory is listed again.
+func TestVerifPrune(t *testing.T) {
+	dir, in, outp := os.Getenv("VERIF_DIR"), os.Getenv("VERIF_SCRIPT"), os.Getenv("VERIF_OUT")
+	if dir == "" || in == "" || outp == "" {
+		t.Skip("driver only")
+	}
+	b, _ := os.ReadFile(in)
+	var all struct {
+		Scenarios []struct {
+			Files  []struct{ Name string; KB int }
+			Others []struct{ Name string; KB int }
+		} `json:"scenarios"`
+	}
+	if err := json.Unmarshal(b, &all); err != nil {
+		t.Fatal(err)
+	}
+	fo, _ := os.Create(outp)
+	defer fo.Close()
+	enc := json.NewEncoder(fo)
+	write := func(name string, kb int) {
+		os.WriteFile(filepath.Join(dir, name), make([]byte, kb*1024), 0644)
+	}
+	blocksOf := func(name string, bsize int64) int64 {
+		var st syscall.Stat_t
+		if syscall.Stat(filepath.Join(dir, name), &st) != nil {
+			return 0
+		}
+		return (st.Blocks*512 + bsize - 1) / bsize
+	}
+	for si, sc := range all.Scenarios {
+		ents, _ := os.ReadDir(dir)
+		for _, e := range ents {
+			os.RemoveAll(filepath.Join(dir, e.Name()))
+		}
+		for _, f := range sc.Others {
+			write(f.Name, f.KB)
+		}
+		for _, f := range sc.Files {
+			write(f.Name, f.KB)
+		}
+		var fs syscall.Statfs_t
+		syscall.Statfs(dir, &fs)
+		matches, _ := filepath.Glob(filepath.Join(dir, "*.cptv*")) // sorted = oldest first
+		files := []map[string]interface{}{}
+		for _, m := range matches {
+			files = append(files, map[string]interface{}{"name": filepath.Base(m), "blocks": blocksOf(filepath.Base(m), int64(fs.Bsize))})
+		}
+		others := []string{}
+		for _, f := range sc.Others {
+			others = append(others, f.Name)
+		}
+		err := deleteExcessRecordings(dir)
+		left, othersLeft := []string{}, []string{}
+		after, _ := filepath.Glob(filepath.Join(dir, "*.cptv*"))
+		for _, m := range after {
+			left = append(left, filepath.Base(m))
+		}
+		for _, f := range sc.Others {
+			if fileExists(filepath.Join(dir, f.Name)) {
+				othersLeft = append(othersLeft, f.Name)
+			}
+		}
+		enc.Encode(map[string]interface{}{"ev": "prune", "scenario": si, "total": fs.Blocks, "avail": fs.Bavail, "files": files,
+			"others": others, "left": left, "others_left": othersLeft, "err": err != nil})
+	}
+}
